@@ -164,7 +164,7 @@ func c09Sched(r *engine.Run) {
 		budget := 60
 		if !r.Quick() {
 			bound = 2
-			budget = 900
+			budget = 300 // per subtree; the scenario as a whole stops after three times that (F4 does not finish at bound 2)
 		}
 		engine.RunSched(r, engine.SchedSpec{Name: sc.Name, WorkerArgs: []string{"worker", "sched-fullsync"}, Scenario: sc, Bound: bound, Horizon: 2500, BudgetS: budget})
 	}
